@@ -1256,6 +1256,14 @@ def wrapper_size_rule(chk, db, fn, w, k, R):
             wv = io_view(wp)
             written = sorted(it[1] for it in wv if it[0] in ('ENC', 'PAYLOAD'))
             visits_w = len([e for e in wp.events if e.kind == 'call' and e.name == 'Visit'])
+            # the wrapper's own prefix byte: when the writer does not delegate to the contained value's payload (whose Size()
+            # already includes that value's prefix), the wrapper's marker byte must be counted by Size() itself
+            delegates = any(it[0] == 'PAYLOAD' for it in wv)
+            rp = symx.as_poly(sp.ret) if sp.ret is not None else None
+            own_prefix = rp is not None and ('BaseEncodingSize' in repr(rp) or (rp.t.get((), 0) or 0) >= 1)
+            if not delegates and not visits_w and not own_prefix:
+                why.append('in the state %s the writer emits the wrapper\'s own marker byte but Size() = %s does not count it' % (
+                    sorted('%s=%s' % (a.replace('p:value.', ''), b) for a, b in {**wpred, **spred}.items())[:3], repr(rp)[:80]))
             if sized != written or visits_s != visits_w:
                 why.append('in the state %s the writer emits %s%s but Size() counts %s%s' % (
                     sorted('%s=%s' % (a.replace('p:value.', ''), b) for a, b in {**wpred, **spred}.items())[:3], [short_t(x) for x in written],
